@@ -75,6 +75,26 @@ Theorem contiguous_slice_length {A} (l:list A) (a b : Z) :
 Proof. exact (SliceContig.contiguous_slice_length l a b). Qed.
 Print Assumptions contiguous_slice_length.
 
+(* cutting anywhere and concatenating the two parts gives the sequence back *)
+Theorem cut_and_concatenate {A} (l:list A) (k : Z) :
+  0 <= k <= Z.of_nat (length l) ->
+  slice_list l 0 k 1 ++ slice_list l k (Z.of_nat (length l)) 1 = l.
+Proof. exact (SliceContig.cut_and_concatenate l k). Qed.
+Print Assumptions cut_and_concatenate.
+
+(* NEGATIVE POSITIONS COUNT FROM THE END, for every step and either sign: position a - length is position a *)
+Theorem negative_start_counts_from_end {A} (l:list A) (a b step : Z) :
+  0 <= a < Z.of_nat (length l) ->
+  slice_list l (a - Z.of_nat (length l)) b step = slice_list l a b step.
+Proof. exact (SliceContig.negative_start_counts_from_end l a b step). Qed.
+Print Assumptions negative_start_counts_from_end.
+
+Theorem negative_end_counts_from_end {A} (l:list A) (a b step : Z) :
+  0 <= b < Z.of_nat (length l) ->
+  slice_list l a (b - Z.of_nat (length l)) step = slice_list l a b step.
+Proof. exact (SliceContig.negative_end_counts_from_end l a b step). Qed.
+Print Assumptions negative_end_counts_from_end.
+
 (* STEP -1 from position -1 down past the first position (-length - 1): the sequence reversed *)
 Theorem reversed_slice {A} (l:list A) :
   slice_list l (-1) (- Z.of_nat (length l) - 1) (-1) = rev l.
